@@ -1,8 +1,15 @@
 import N0Verif.Proofs.Csv
+import N0Verif.Proofs.CsvGenEq
 /-!
 # C13 — a CSV line parses back to the fields it was generated from
 
-Only property statements live here; helper lemmas are in `Proofs/Csv.lean`.
+Only property statements live here; helper lemmas are in `Proofs/Csv.lean` and
+`Proofs/CsvGenEq.lean`.
+
+The `C13_generated_*` theorems tie the hand-written model to the source a second time: the
+definitions of `Gen/CsvPy.lean` are regenerated from the Python text on every run
+(`harness/translate_py_csv.py`) and proved equal to the model, so the round-trip theorems hold for
+the translated code (`C13_roundtrip_generated`, `C13_roundtrip_generated_bytes`).
 -/
 namespace N0.C13
 open N0 N0.Py N0.Csv
@@ -136,10 +143,60 @@ theorem C13_only_valueerror (d : Char) (line : Str) (e : PyErr)
     rw [hr] at h
     simp [bind, Except.bind, pure, Except.pure] at h
 
+/-! ## the definitions regenerated from the Python source equal the hand-written model
+
+The generated functions take the parameters of the Python functions in source order (`line,
+delimiter` / `row, delimiter, EOL`) with the delimiter as a string; the model is about one-character
+delimiters, hence `[d]`. -/
+
+/-- **generated parser = model (str lines).** -/
+theorem C13_generated_parse_eq (d : Char) (line : Str) :
+    Gen.CsvPy.parseStr line [d] = parse d line := CsvGenEq.parseStr_eq d line
+
+/-- **generated parser = model (bytes lines; a byte is the character with the same code).** -/
+theorem C13_generated_parse_bytes_eq (d : Char) (line : Str) :
+    Gen.CsvPy.parseBytes line [d] = parse d line := CsvGenEq.parseBytes_eq d line
+
+/-- **generated row generator = model (rows of strings); the generated code never raises.** -/
+theorem C13_generated_gen_eq (d : Char) (row : List Str) (eol : Str) :
+    Gen.CsvPy.genRow row [d] eol = .ok (gen d row eol) := CsvGenEq.genRow_eq d row eol
+
+/-- **C13 for the translated code.**  The round trip, stated on the definitions regenerated from
+the Python source: generating a line and parsing it returns the row. -/
+theorem C13_roundtrip_generated (d : Char) (hd : GoodDelim d) (row : List Str) (hrow : row ≠ [])
+    (hf : ∀ g ∈ row, NoBreak g) (eol : Str) (he : IsEol eol) :
+    (Gen.CsvPy.genRow row [d] eol).bind (fun line => Gen.CsvPy.parseStr line [d]) = .ok row := by
+  rw [C13_generated_gen_eq]
+  simp only [Except.bind]
+  rw [C13_generated_parse_eq]
+  exact C13_roundtrip d hd row hrow hf eol he
+
+/-- the same with the bytes specialisation of the parser (the generated text is a row of
+one-byte characters) -/
+theorem C13_roundtrip_generated_bytes (d : Char) (hd : GoodDelim d) (row : List Str) (hrow : row ≠ [])
+    (hf : ∀ g ∈ row, NoBreak g) (eol : Str) (he : IsEol eol) :
+    (Gen.CsvPy.genRow row [d] eol).bind (fun line => Gen.CsvPy.parseBytes line [d]) = .ok row := by
+  rw [C13_generated_gen_eq]
+  simp only [Except.bind]
+  rw [C13_generated_parse_bytes_eq]
+  exact C13_roundtrip d hd row hrow hf eol he
+
+/-- the translated parser raises only `ValueError` -/
+theorem C13_only_valueerror_generated (d : Char) (line : Str) (e : PyErr)
+    (h : Gen.CsvPy.parseStr line [d] = .error e) : e = .ValueError :=
+  C13_only_valueerror d line e (by rw [← C13_generated_parse_eq]; exact h)
+
 /-! Non-vacuity: concrete rows that meet the hypotheses and exercise every branch. -/
 example : GoodDelim ',' := by unfold GoodDelim; decide
 example : parse ',' (gen ',' [['a', ',', '"'], ['"'], [], ['"', 'x', '"']] ['\r', '\n'])
     = .ok [['a', ',', '"'], ['"'], [], ['"', 'x', '"']] := by decide
 example : parse ';' (writerLine ';' ['\n'] [[]]) = .ok [[]] := by decide
+/-! the generated definitions compute (and are not trivially equal to the model: they are separate
+definitions over their own state structures) -/
+example : Gen.CsvPy.genRow [['a', ',', '"'], ['"'], []] [','] ['\r', '\n']
+    = .ok ['"', 'a', ',', '"', '"', '"', ',', '"', '"', '"', '"', ',', '\r', '\n'] := by decide
+example : Gen.CsvPy.parseStr ['"', 'a', ',', '"', '"', '"', ',', '"', '"', '"', '"', ',', '\r', '\n'] [',']
+    = .ok [['a', ',', '"'], ['"'], []] := by decide
+example : Gen.CsvPy.parseBytes ['"', 'a', '"', 'b'] [','] = .error .ValueError := by decide
 
 end N0.C13
